@@ -176,14 +176,33 @@ func runSeqJob(job *SeqJob, shard, nshards int, budget time.Duration) *seqResult
 	sort.Strings(ctx.alphabet)
 	res.Stats = &seqStatsOut{Stats: ctx.st, DistinctNontrivial: nt, DepthCompleted: ctx.depthDone, Alphabet: ctx.alphabet}
 	if ctx.viol != nil && job.Replay != nil {
-		for i := 0; i < 5; i++ {
+		// confirmation: the recorded case is re-executed without the search. Five identical outcomes are the
+		// normal case. Plain (uninstrumented) builds leave Go's map iteration order to the runtime, so a case may
+		// show the violation only for some orders, or under another clause: it is then replayed 20 times and
+		// reported when it reproduces at least twice; a case that never reproduces is an infrastructure error.
+		same, any, n := 0, 0, 0
+		for n = 0; n < 5; n++ {
 			cl, _ := job.Replay(ctx.viol.Ops)
-			if cl != ctx.viol.Clause {
-				res.Infra = fmt.Sprintf("NONDETERMINISM: replay %d of the violating case gave clause %q, not %q", i, cl, ctx.viol.Clause)
-				break
+			if cl == ctx.viol.Clause {
+				same++
 			}
-			res.Confirmed++
+			if cl != "" {
+				any++
+			}
 		}
+		if same < 5 {
+			for ; n < 20; n++ {
+				if cl, _ := job.Replay(ctx.viol.Ops); cl != "" {
+					any++
+				}
+			}
+			if any < 2 {
+				res.Infra = fmt.Sprintf("NONDETERMINISM: the violating case (clause %q) reproduced in %d of %d replays", ctx.viol.Clause, any, n)
+			} else {
+				ctx.viol.Detail += fmt.Sprintf("\n(reproduced in %d of %d replays, %d with the same clause: the outcome depends on Go's map iteration order)", any, n, same)
+			}
+		}
+		res.Confirmed = any
 	}
 	return res
 }
